@@ -28,7 +28,10 @@ from props import winmodel as W
 from props import valmodel as V
 
 _MOD = None
-KINDS = {'PartitionedTumblingWindow': ('TumblingWindow', ['duration']), 'PartitionedSlidingWindow': ('SlidingWindow', ['window_size', 'slide_interval']), 'PartitionedSessionWindow': ('SessionWindow', ['gap'])}
+KINDS = {'PartitionedTumblingWindow': ('TumblingWindow', ['duration']), 'PartitionedSlidingWindow': ('SlidingWindow', ['window_size', 'slide_interval']), 'PartitionedSessionWindow': ('SessionWindow', ['gap']),
+         # the count-based partitioned states live in engine/types.rs (crate-private; their method is `add`); the inner window stores `window_size` as `count` / as is
+         'PartitionedWindowState': ('CountWindow', ['window_size']), 'PartitionedSlidingCountWindowState': ('SlidingCountWindow', ['window_size', 'slide_size'])}
+WHERE = {'PartitionedWindowState': ('engine/types.rs', 'engine::types', 'add', {'window_size': 'count'}), 'PartitionedSlidingCountWindowState': ('engine/types.rs', 'engine::types', 'add', {})}
 DEFAULT = BitVec('key_default', 16)          # the token of the literal "default"
 
 
@@ -126,7 +129,9 @@ def job(spec):
     outer, n, present = spec
     inner, params = KINDS[outer]
     t0 = time.time()
-    src = open(mirdump.crate_dir('runtime') + '/src/window.rs').read()
+    wsrc = open(mirdump.crate_dir('runtime') + '/src/window.rs').read()
+    rel, modpath, method, rename = WHERE.get(outer, ('window.rs', 'window', 'add_shared', {}))
+    src = open(mirdump.crate_dir('runtime') + '/src/' + rel).read()
     of = struct_fields(src, outer)
     if not of or set(of) != set(['partition_key', 'windows'] + params): raise Unsupported('%s fields changed: %s' % (outer, of))
     hk = [(re.compile(p), f) for p, f in hooks(inner) + W.HOOKS] + containers.container_hooks() + models.generic_hooks()
@@ -146,8 +151,8 @@ def job(spec):
     cell = [outer_v]
     st0 = State(roots={'cell': cell, 'touched': [], 'touched_cells': [], 'created': 0}); st0.path.assume(And(*cons) if cons else BoolVal(True))
     line = src[:src.index('impl %s {' % outer)].count('\n') + 1
-    fns = [x for x in _MOD.funcs if re.search(r'^window::<impl at crates/varpulis-runtime/src/window\.rs:%d:[^>]*>::add_shared$' % line, x)]
-    if len(fns) != 1: raise Unsupported('%s::add_shared: %s' % (outer, fns))
+    fns = [x for x in _MOD.funcs if re.search(r'^%s::<impl at crates/varpulis-runtime/src/%s:%d:[^>]*>::%s$' % (re.escape(modpath), re.escape(rel), line, method), x)]
+    if len(fns) != 1: raise Unsupported('%s::%s: %s' % (outer, method, fns))
     res = ex.run(_MOD.funcs[fns[0]], [Ptr(cell, 0), Ptr(evcell, 0)], st=st0)
     verdicts = []; stats = {'q': 0, 's': 0.0}
     def prove(pc, cond, nm, wit):
@@ -180,11 +185,11 @@ def job(spec):
         else:
             w = ents[i][1]
             while isinstance(w, Ptr): w = w.get()
-            inner_f = struct_fields(src, inner)
+            inner_f = struct_fields(wsrc, inner)
             same_params = BoolVal(True)
             if inner_f and isinstance(w, list):
                 try:
-                    same_params = And(*[w[inner_f.index({'duration': 'duration', 'window_size': 'window_size', 'slide_interval': 'slide_interval', 'gap': 'gap'}[p])] == pvals[p] for p in params])
+                    same_params = And(*[w[inner_f.index(rename.get(p, p))] == pvals[p] for p in params])
                 except (ValueError, KeyError):
                     same_params = BoolVal(False)
             prove(pc, And(BoolVal(len(ents) == n + 1 and i == n), Not(existing), same_params), 'fresh: a new key gets exactly one new window, built from the configured parameters', wit)
@@ -212,14 +217,14 @@ def run(ctx):
     nmax = 3 if ctx.tier == 'thorough' else 2
     ctx.bounds = {'tables': '0..%d existing partitions under distinct symbolic keys; the event\'s partition field missing or present with an arbitrary key token (equal to an existing key, to "default", or new)' % nmax,
                   'windows': list(KINDS),
-                  'outside': 'the per-window add itself (C12 / C13), Value::to_partition_key (which values share a key: Int 1, Float 1.0 and Str "1" all render as "1" — formatting code), partitioned pattern run sets and aggregates, flush / check_expired / checkpoint of the partitioned wrappers, count-based partitioned windows'}
+                  'outside': 'the per-window add itself (C12 / C13), Value::to_partition_key (which values share a key: Int 1, Float 1.0 and Str "1" all render as "1" — formatting code), partitioned pattern run sets and aggregates, flush / check_expired / checkpoint of the partitioned wrappers'}
     ctx.assumptions += ['the partition key of a value is an arbitrary string token (to_partition_key is cut)', 'the per-window add_shared is cut: it records the receiving window object', 'FxHashMap as an entry list with distinct keys']
     tasks = [(outer, n, present) for outer in KINDS for n in range(0, nmax + 1) for present in (True, False)]
     with ProcessPoolExecutor(max_workers=12, mp_context=mp.get_context('fork')) as pool:
         res = list(pool.map(_worker, tasks))
     binp = None; seen = set()
     for r in res:
-        tgt = '%s::add_shared' % r['spec'][0]; cls = '%s partitions, field %s' % (r['spec'][1], 'present' if r['spec'][2] == 'True' else 'missing')
+        tgt = '%s::%s' % (r['spec'][0], WHERE.get(r['spec'][0], (0, 0, 'add_shared'))[2]); cls = '%s partitions, field %s' % (r['spec'][1], 'present' if r['spec'][2] == 'True' else 'missing')
         if r.get('error'):
             ctx.inconclusive.append('%s (%s): %s' % (tgt, cls, r['error'])); continue
         for why in sorted(set(r['inconclusive'])): ctx.inconclusive.append('%s (%s): %s' % (tgt, cls, why))
@@ -232,6 +237,6 @@ def run(ctx):
             if key in seen: continue
             seen.add(key)
             w = v.get('witness') or {}
-            if binp is None: binp = replay.build('rt')
+            if binp is None: binp = replay.build('rt', rustflags='--cfg varpulis_verif')
             ctx.findings.append(Finding(key, '%s %s: %s (witness %s)' % (tgt, cls, v['name'], w), [binp, 'partwin', r['spec'][0]], w))
     ctx.models += sorted(models.USED)
